@@ -20,6 +20,6 @@ if r.returncode != 0:
 os.makedirs(buildlib.BUILD, exist_ok=True)
 os.makedirs(os.path.join(buildlib.VERIF, "evidence", "replay"), exist_ok=True)
 from concurrent.futures import ThreadPoolExecutor  # noqa: E402
-with ThreadPoolExecutor(max_workers=2) as ex:
-    list(ex.map(lambda f: buildlib.ensure_lib(f), ["rel", "asan"]))
+with ThreadPoolExecutor(max_workers=6) as ex:
+    list(ex.map(lambda f: buildlib.ensure_lib(f), ["rel", "asan", "cfg-gxx-O0", "cfg-gxx-O2", "cfg-clangxx-O0", "cfg-clangxx-O2"]))
 print("setup ok")
